@@ -332,6 +332,9 @@ fn run(ctx: &mut Ctx) {
     if ctx.shard == 0 {
         xdev_slice(ctx);
     }
+    if ctx.shard == 1 % ctx.nshards {
+        bytewise_order_slice(ctx);
+    }
 }
 
 /// -xdev / -mount with a second file system mounted inside the tree (a tmpfs on r/m): the mount
@@ -464,6 +467,55 @@ fn xdev_slice(ctx: &mut Ctx) {
     }
 }
 
+/// -sorted is byte-wise name order for every name, also for names that are not valid UTF-8 (0x80 and a
+/// truncated sequence sort before every well-formed multi-byte character, 0xff after all of them): eleven
+/// sibling directories named by such byte strings, each holding one file named by its rank; the files
+/// must come out 00..10 (pre-order, -depth, and with a -prune on one of them).
+fn bytewise_order_slice(ctx: &mut Ctx) {
+    use std::os::unix::ffi::OsStrExt;
+    let base = ctx.sbx.join("bo");
+    let _ = crate::sandbox::force_remove(&base);
+    std::fs::create_dir_all(&base).unwrap();
+    let mut names: Vec<&[u8]> = vec![b"k", b"k\x80", b"k\xc3\xa9", b"k\xe2\x82", b"k\xe3\x81\x82", b"k\xf0\x90\x80\x80", b"k\xff", b"ka", b"kZ", b"k\xc3", b"k\xef\xbf\xbd"];
+    // created in an order unrelated to the expected one
+    for n in names.iter().rev() {
+        std::fs::create_dir(base.join(std::ffi::OsStr::from_bytes(n))).unwrap();
+    }
+    names.sort();
+    for (rank, n) in names.iter().enumerate() {
+        std::fs::write(base.join(std::ffi::OsStr::from_bytes(n)).join(format!("{rank:02}")), b"").unwrap();
+    }
+    std::env::set_current_dir(&ctx.sbx).unwrap();
+    let want: Vec<String> = (0..names.len()).map(|r| format!("{r:02}")).collect();
+    for (what, args, skip) in [
+        ("pre-order", vec!["bo", "-sorted", "-type", "f", "-printf", "%f\\n"], None),
+        ("-depth", vec!["bo", "-sorted", "-depth", "-type", "f", "-printf", "%f\\n"], None),
+        ("-d", vec!["bo", "-d", "-sorted", "-type", "f", "-printf", "%f\\n"], None),
+        ("with a pruned sibling", vec!["bo", "-sorted", "(", "-name", "ka", "-prune", ")", "-o", "-type", "f", "-printf", "%f\\n"], Some("ka")),
+    ] {
+        let got = run_find(&args);
+        ctx.rep.evaluations += 1;
+        ctx.rep.nontrivial += 1;
+        ctx.rep.count("bytewise_order_cases", 1);
+        let lines: Vec<String> = String::from_utf8_lossy(&got.out).lines().map(String::from).collect();
+        let want: Vec<String> = match skip {
+            Some(n) => {
+                let r = names.iter().position(|x| *x == n.as_bytes()).unwrap();
+                want.iter().filter(|w| **w != format!("{r:02}")).cloned().collect()
+            }
+            None => want.clone(),
+        };
+        if lines != want || got.code != Ok(0) {
+            ctx.rep.violation(
+                "C03 -sorted: siblings whose names are not all valid UTF-8 are not visited in byte-wise name order",
+                format!("{what}: find {:?} printed {:?}, expected {:?} (directories named, in byte order, {:?}); status {:?}", args, lines, want, names.iter().map(|n| n.iter().map(|b| format!("{b:02x}")).collect::<String>()).collect::<Vec<_>>(), got.code),
+                json!({"prop":"C03","bytewise":true}),
+            );
+        }
+    }
+    let _ = crate::sandbox::force_remove(&base);
+}
+
 /// One hand-built tree beyond the exhaustive bound: sibling names of 15, 16, 17, 32 and 33 bytes
 /// sharing long prefixes next to 1-byte names (byte order must hold at every length), a chain six
 /// directories deep with files at every level, a link to a directory between later siblings, 40
@@ -553,6 +605,10 @@ fn scale_slice(ctx: &mut Ctx) {
 }
 
 fn replay(case: &Value, ctx: &mut Ctx) -> Option<String> {
+    if case["bytewise"] == true {
+        bytewise_order_slice(ctx);
+        return ctx.rep.violations.keys().next().cloned();
+    }
     if case["xdev"] == true {
         xdev_slice(ctx);
         return ctx.rep.violations.keys().next().cloned();
